@@ -58,6 +58,9 @@ partial def loop (h : IO.FS.Stream) (st : DState) (lineNo : Nat) : IO DState := 
       let (cs, ms) := csvLine st.csv toks
       let st ← emit { st with csv := cs } lineNo ms
       loop h st (lineNo + 1)
+    | "conc" =>
+      let st ← emit st lineNo (concLine toks)
+      loop h st (lineNo + 1)
     | "sortadv" =>
       let st ← emit st lineNo (sortAdvLine toks)
       loop h st (lineNo + 1)
